@@ -3,11 +3,12 @@
 import sys, os, json, subprocess, concurrent.futures as cf
 
 ONE = os.path.join(os.path.dirname(os.path.abspath(__file__)), 'c12_one.py')
+MULTI = os.path.join(os.path.dirname(os.path.abspath(__file__)), 'c12_multi.py')      # a multi-root history (kind == 'multi')
 
 
 def run_one(cfg):
     try:
-        p = subprocess.run([sys.executable, ONE], input=json.dumps(cfg), capture_output=True, text=True, timeout=120)
+        p = subprocess.run([sys.executable, MULTI if cfg.get('kind') == 'multi' else ONE], input=json.dumps(cfg), capture_output=True, text=True, timeout=120)
     except subprocess.TimeoutExpired:
         return {'runner_error': 'timeout'}
     if p.returncode != 0:
